@@ -5,8 +5,8 @@ Lemma collect_resolved msgs code : collect msgs code <> Pending.
 Proof.
   unfold collect. destruct msgs as [|m1 [|m2 r]].
   - destruct (- code =? 15); discriminate.
-  - destruct (- code =? 15); discriminate.
-  - destruct m2; discriminate.
+  - destruct m1; destruct (- code =? 15); discriminate.
+  - destruct m1; destruct m2; discriminate.
 Qed.
 
 Lemma future_always_resolved g : parent_future g <> Pending.
@@ -35,10 +35,11 @@ Lemma normal_endings g :
     | ExitOther => FError PSysExitOther
     | RaiseUnsendable | ReturnUnsendable => FError (POSErr (-1))
     | HardExit n => if - n =? 15 then FResult PNone else FError (POSErr (- n))
+    | ReturnUnloadable e => FError (PExc e)
     end.
 Proof.
   intros Hk. unfold parent_future, child_run. rewrite Hk.
-  destruct (how g) as [v|e| |n| | | |n]; cbn; try reflexivity.
+  destruct (how g) as [v|e| |n| | | |n|e]; cbn; try reflexivity.
   destruct (n =? 0); reflexivity.
 Qed.
 
@@ -46,9 +47,9 @@ Qed.
    reported as an error, never as a normal return *)
 Lemma silent_child_failure_is_error g :
   kill g = NoKill -> sendable (how g) = false -> (forall n, how g = HardExit n -> n <> -15) ->
-  exists c, parent_future g = FError (POSErr c).
+  exists c, parent_future g = FError c.
 Proof.
-  intros Hk Hs Hn. rewrite (normal_endings g Hk). destruct (how g) as [v|e| |n| | | |n]; try discriminate Hs; eauto.
+  intros Hk Hs Hn. rewrite (normal_endings g Hk). destruct (how g) as [v|e| |n| | | |n|e]; try discriminate Hs; eauto.
   destruct (- n =? 15) eqn:E; [|eauto]. exfalso. apply (Hn n eq_refl). apply Z.eqb_eq in E. lia.
 Qed.
 
@@ -67,7 +68,7 @@ Lemma killed_after_sends g :
   parent_future g = parent_future {| how := how g; kill := NoKill; sig := sig g |}.
 Proof.
   intros Hk Hs. unfold parent_future, child_run. rewrite Hk. cbn.
-  destruct (how g) as [v|e| |n| | | |n]; try discriminate Hs; cbn; try reflexivity.
+  destruct (how g) as [v|e| |n| | | |n|e]; try discriminate Hs; cbn; try reflexivity.
   destruct (n =? 0); reflexivity.
 Qed.
 
@@ -77,5 +78,5 @@ Lemma thread_matches_process h :
                     | FResult v => FResult v | FError e => FError e | Pending => Pending end.
 Proof.
   intros Hs. rewrite normal_endings by reflexivity. cbn.
-  destruct h as [v|e| |n| | | |n]; try discriminate Hs; cbn; try reflexivity. destruct (n =? 0); reflexivity.
+  destruct h as [v|e| |n| | | |n|e]; try discriminate Hs; cbn; try reflexivity. destruct (n =? 0); reflexivity.
 Qed.
